@@ -139,7 +139,7 @@ Proof. unfold C03_iter.rtext, ypar. cbn [gprec]. rewrite andb_false_r. cbn [pare
 
 Lemma attr_parts_snoc vs x : vs <> [] -> attr_parts fx true (vs ++ [x]) = (attr_parts fx true vs ++ [yb true P_ATOM x])%list.
 Proof.
-  unfold attr_parts, attr_parts_gen. destruct vs as [|v rest]; [congruence|]. intros _.
+  unfold attr_parts, attr_parts_gen. rqnorm. destruct vs as [|v rest]; [congruence|]. intros _.
   destruct v; rewrite <- ?app_comm_cons; cbn [map]; rewrite ?map_app; reflexivity.
 Qed.
 
@@ -148,17 +148,17 @@ Proof.
   intros H.
   assert (Hother : forall g0, render (GAttribute [g0; GName a ParNone]) = render (GAttribute [g0; GName a ParNone])) by reflexivity.
   destruct g; unfold attach_attr, attr_head;
-    try (rewrite render_Attribute; unfold attr_parts, attr_parts_gen; cbn [map sjoin]; rewrite !render_yb;
+    try (rewrite render_Attribute; unfold attr_parts, attr_parts_gen; rqnorm; cbn [map sjoin]; rewrite !render_yb;
          fold (rtext P_ATOM (GName a ParNone)); rewrite ?rtext_name_atom; reflexivity).
-  - (* GStr *) rewrite render_Attribute. unfold attr_parts, attr_parts_gen. cbn [map sjoin]. rewrite render_yb.
+  - (* GStr *) rewrite render_Attribute. unfold attr_parts, attr_parts_gen. rqnorm. cbn [map sjoin]. rewrite render_yb.
     fold (rtext P_ATOM (GName a ParStr)). rewrite rtext_name_atom.
     destruct (fx_intattr fx && is_decimal s); cbn [render_items map item_text sconcat fold_right]; rewrite ?sapp_nil_r, ?sapp_assoc; reflexivity.
-  - (* GName *) rewrite render_Attribute. unfold attr_parts, attr_parts_gen. cbn [map sjoin]. rewrite !render_yb.
+  - (* GName *) rewrite render_Attribute. unfold attr_parts, attr_parts_gen. rqnorm. cbn [map sjoin]. rewrite !render_yb.
     fold (rtext P_ATOM (GName a (ParName (gname_path (GName name par))))). rewrite rtext_name_atom. reflexivity.
   - (* GAttribute *) destruct vs as [|v0 vs]; [contradiction|].
     rewrite !render_Attribute, attr_parts_snoc by discriminate. rewrite map_app. cbn [map]. rewrite render_yb.
     fold (rtext P_ATOM (GName a (ParName (gname_path (last (v0 :: vs) (GStr "")))))). rewrite rtext_name_atom.
-    apply sjoin_snoc. unfold attr_parts, attr_parts_gen. destruct v0; discriminate.
+    apply sjoin_snoc. unfold attr_parts, attr_parts_gen. rqnorm. destruct v0; discriminate.
 Qed.
 
 (* ---------- calls ---------- *)
